@@ -559,7 +559,7 @@ def run_symbolic(pdef, cvc5=False):
     except HarnessError as e:
         crash = "harness error: %s" % e
     except Exception as e:
-        crash = "engine exception: %s: %s\n%s" % (type(e).__name__, e, traceback.format_exc(limit=8))
+        crash = "engine exception: %s: %s\n%s" % (type(e).__name__, e, traceback.format_exc(limit=-12))
     run.wall_s = time.time() - t0
     run.crash = crash
     return run
